@@ -1840,10 +1840,418 @@ def lower_derived_maps(repo):
     return count
 
 
+def lower_module_records(repo):
+    """``R = namedtuple('R', [f0, f1, ...])`` at module level, used only to build records
+    (``R(a, b, c)``, also as ``module.R(...)`` from elsewhere): the constructor call is the tuple
+    of its arguments in field order, and inside the defining module a read ``x.fi`` -- x a loop /
+    comprehension / lambda variable or a parameter, or an element ``x[...]`` of one -- is
+    ``x[i]``.  A namedtuple is a tuple: exact whenever x is a record, and the names considered are
+    those no class of the module uses as an attribute of its own objects"""
+    count = 0
+    for mod, info in repo.modules.items():
+        tree = info['tree']
+        recs = {}
+        for st in tree.body:
+            if isinstance(st, ast.Assign) and len(st.targets) == 1 and isinstance(st.targets[0], ast.Name) and isinstance(st.value, ast.Call) \
+                    and ast.unparse(st.value.func) in ('namedtuple', 'collections.namedtuple') and len(st.value.args) == 2:
+                a = st.value.args[1]
+                if isinstance(a, ast.Constant) and isinstance(a.value, str):
+                    recs[st.targets[0].id] = (a.value.replace(',', ' ').split(), st)
+                elif isinstance(a, (ast.List, ast.Tuple)) and all(isinstance(x, ast.Constant) and isinstance(x.value, str) for x in a.elts):
+                    recs[st.targets[0].id] = ([x.value for x in a.elts], st)
+        for R, (fields, decl) in recs.items():
+            # every mention of R in the package is the callee of a complete constructor call
+            sites, ok = [], True
+            for m2, i2 in repo.modules.items():
+                par = {}
+                for pn in ast.walk(i2['tree']):
+                    for c in ast.iter_child_nodes(pn):
+                        par[id(c)] = pn
+                for x in ast.walk(i2['tree']):
+                    hit = None
+                    if isinstance(x, ast.Name) and x.id == R and m2 == mod:
+                        hit = x
+                    elif isinstance(x, ast.Attribute) and x.attr == R and ast.unparse(x.value) in (mod, 'bisturi.' + mod):
+                        hit = x
+                    elif isinstance(x, ast.Name) and x.id == R and m2 != mod and any(isinstance(n, ast.ImportFrom) and (n.module or '').endswith(mod) and any((al.asname or al.name) == R for al in n.names) for n in ast.walk(i2['tree'])):
+                        hit = x
+                    if hit is None:
+                        continue
+                    pp = par.get(id(hit))
+                    if pp is decl and isinstance(hit.ctx, ast.Store):
+                        continue
+                    if isinstance(pp, ast.Call) and pp.func is hit:
+                        vals = dict(zip(fields, pp.args))
+                        bad = any(isinstance(a_, ast.Starred) for a_ in pp.args) or len(pp.args) > len(fields)
+                        for k in pp.keywords:
+                            if k.arg is None or k.arg in vals or k.arg not in fields:
+                                bad = True
+                            else:
+                                vals[k.arg] = k.value
+                        if bad or set(vals) != set(fields):
+                            ok = False
+                        else:
+                            sites.append((m2, pp, vals))
+                    elif isinstance(pp, ast.ImportFrom) or isinstance(hit.ctx, ast.Store):
+                        continue
+                    else:
+                        ok = False
+            if not ok or not sites:
+                continue
+            # names that objects of the module's own classes carry: not lowered
+            own = set()
+            for n in ast.walk(tree):
+                if isinstance(n, ast.Attribute) and isinstance(n.ctx, ast.Store):
+                    own.add(n.attr)
+                elif isinstance(n, ast.ClassDef):
+                    for b in n.body:
+                        if isinstance(b, (ast.FunctionDef, ast.AsyncFunctionDef)):
+                            own.add(b.name)
+                        elif isinstance(b, ast.Assign):
+                            own |= {t.id for t in b.targets if isinstance(t, ast.Name)}
+            low = [f for f in fields if f not in own]
+            if len(low) != len(fields):
+                continue
+            # constructor calls -> tuples
+            for m2, call, vals in sites:
+                new = ast.copy_location(ast.Tuple(elts=[vals[f] for f in fields], ctx=ast.Load()), call)
+                for fi in repo.functions.values():
+                    if fi.module == m2:
+                        _Replace(call, new).visit(fi.node)
+            # reads by field name -> reads by position, in the defining module
+            for fi in repo.functions.values():
+                if fi.module != mod or not isinstance(fi.node, (ast.FunctionDef, ast.Lambda)):
+                    continue
+                bound = {a.arg for a in fi.node.args.args + fi.node.args.kwonlyargs} - {'self', 'cls'}
+                for n in ast.walk(fi.node):
+                    if isinstance(n, ast.For):
+                        bound |= {x.id for x in ast.walk(n.target) if isinstance(x, ast.Name)}
+                    elif isinstance(n, (ast.ListComp, ast.GeneratorExp, ast.SetComp, ast.DictComp)):
+                        for g in n.generators:
+                            bound |= {x.id for x in ast.walk(g.target) if isinstance(x, ast.Name)}
+                    elif isinstance(n, ast.Lambda):
+                        bound |= {a.arg for a in n.args.args}
+
+                class T(ast.NodeTransformer):
+                    def visit_Attribute(self, n):
+                        self.generic_visit(n)
+                        if isinstance(n.ctx, ast.Load) and n.attr in fields:
+                            base = n.value
+                            while isinstance(base, ast.Subscript):
+                                base = base.value
+                            if isinstance(base, ast.Name) and base.id in bound:
+                                return ast.copy_location(ast.Subscript(value=n.value, slice=ast.Constant(value=fields.index(n.attr)), ctx=ast.Load()), n)
+                        return n
+                T().visit(fi.node)
+                ast.fix_missing_locations(fi.node)
+            count += 1
+    return count
+
+
+def lower_value_objects(repo):
+    """An immutable value class ``class R(namedtuple('R', [f0, f1])): __slots__ = ()`` with
+    classmethod constructors (``return cls(e0, e1)``) and pure one-expression methods, kept in one
+    attribute H of other objects (every store of ``.H`` anywhere is ``x.H = R(...)`` /
+    ``x.H = R.ctor(...)``, every read is ``x.H.fi`` or ``x.H.method(...)``), and whose field names
+    nothing else in the package stores: the holder is flattened away --
+    ``x.H = R.ctor(a, b)`` is ``x.f0 = e0[a, b]; x.f1 = e1[a, b]``, ``x.H.fi`` is ``x.fi`` and
+    ``x.H.method(args)`` is the method's expression over ``x.fi`` and the arguments.  Exact for
+    what the rules read: the values stored and computed are the same expressions"""
+    count = 0
+
+    def simple(e):
+        return isinstance(e, (ast.Name, ast.Constant)) or (isinstance(e, ast.Attribute) and simple(e.value))
+
+    for mod, info in repo.modules.items():
+        for cd in info['tree'].body:
+            if not (isinstance(cd, ast.ClassDef) and len(cd.bases) == 1 and isinstance(cd.bases[0], ast.Call) and not cd.decorator_list
+                    and ast.unparse(cd.bases[0].func) in ('namedtuple', 'collections.namedtuple') and len(cd.bases[0].args) == 2):
+                continue
+            a = cd.bases[0].args[1]
+            if isinstance(a, ast.Constant) and isinstance(a.value, str):
+                fields = a.value.replace(',', ' ').split()
+            elif isinstance(a, (ast.List, ast.Tuple)) and all(isinstance(x, ast.Constant) and isinstance(x.value, str) for x in a.elts):
+                fields = [x.value for x in a.elts]
+            else:
+                continue
+            R = cd.name
+            ctors, meths, ok = {}, {}, True
+            for b in cd.body:
+                if isinstance(b, ast.Expr) and isinstance(b.value, ast.Constant):
+                    continue
+                if isinstance(b, ast.Assign) and len(b.targets) == 1 and isinstance(b.targets[0], ast.Name) and b.targets[0].id == '__slots__':
+                    continue
+                if not isinstance(b, ast.FunctionDef):
+                    ok = False
+                    break
+                body = [x for x in b.body if not (isinstance(x, ast.Expr) and isinstance(x.value, ast.Constant))]
+                ar = b.args
+                if len(body) != 1 or not isinstance(body[0], ast.Return) or body[0].value is None or ar.vararg or ar.kwarg or ar.kwonlyargs or ar.defaults or not ar.args:
+                    ok = False
+                    break
+                if any(isinstance(x, (ast.Lambda, ast.ListComp, ast.GeneratorExp, ast.SetComp, ast.DictComp, ast.Yield, ast.NamedExpr, ast.Await)) for x in ast.walk(body[0].value)):
+                    ok = False
+                    break
+                decs = [ast.unparse(d) for d in b.decorator_list]
+                first = ar.args[0].arg
+                params = [x.arg for x in ar.args[1:]]
+                if decs == ['classmethod']:
+                    v = body[0].value
+                    if not (isinstance(v, ast.Call) and isinstance(v.func, ast.Name) and v.func.id == first and len(v.args) == len(fields) and not v.keywords
+                            and not any(isinstance(x, ast.Name) and x.id == first for a_ in v.args for x in ast.walk(a_))):
+                        ok = False
+                        break
+                    ctors[b.name] = (params, list(v.args))
+                elif not decs:
+                    uses = [x for x in ast.walk(body[0].value) if isinstance(x, ast.Name) and x.id == first]
+                    attrs = [x for x in ast.walk(body[0].value) if isinstance(x, ast.Attribute) and isinstance(x.value, ast.Name) and x.value.id == first]
+                    if len(uses) != len(attrs) or any(x.attr not in fields or not isinstance(x.ctx, ast.Load) for x in attrs):
+                        ok = False
+                        break
+                    meths[b.name] = (first, params, body[0].value)
+                else:
+                    ok = False
+                    break
+            if not ok:
+                continue
+            # every mention of R: a constructor call R(...) / R.ctor(...) that is the value of a store x.H = ...
+            holders, stores = set(), []
+            for m2, i2 in repo.modules.items():
+                par = {}
+                for pn in ast.walk(i2['tree']):
+                    for c in ast.iter_child_nodes(pn):
+                        par[id(c)] = pn
+                for x in ast.walk(i2['tree']):
+                    if not (isinstance(x, ast.Name) and x.id == R and isinstance(x.ctx, ast.Load)):
+                        continue
+                    if m2 != mod:
+                        continue
+                    pp = par.get(id(x))
+                    call = None
+                    if isinstance(pp, ast.Call) and pp.func is x:
+                        call, ctor = pp, None
+                    elif isinstance(pp, ast.Attribute) and pp.attr in ctors and isinstance(par.get(id(pp)), ast.Call) and par[id(pp)].func is pp:
+                        call, ctor = par[id(pp)], pp.attr
+                    if call is None or call.keywords or any(isinstance(a_, ast.Starred) for a_ in call.args):
+                        ok = False
+                        break
+                    st = par.get(id(call))
+                    if not (isinstance(st, ast.Assign) and st.value is call and len(st.targets) == 1 and isinstance(st.targets[0], ast.Attribute)):
+                        ok = False
+                        break
+                    n_need = len(fields) if ctor is None else len(ctors[ctor][0])
+                    if len(call.args) != n_need or (ctor is not None and not all(simple(a_) for a_ in call.args)):
+                        ok = False
+                        break
+                    holders.add(st.targets[0].attr)
+                    stores.append((st, call, ctor))
+                if not ok:
+                    break
+            if not ok or len(holders) != 1:
+                continue
+            H = list(holders)[0]
+            store_ids = {id(st) for st, _, _ in stores}
+            in_cd = {id(x) for x in ast.walk(cd)}
+            dead_stores, direct_reads = [], []
+            for m2, i2 in repo.modules.items():
+                par = {}
+                for pn in ast.walk(i2['tree']):
+                    for c in ast.iter_child_nodes(pn):
+                        par[id(c)] = pn
+                for x in ast.walk(i2['tree']):
+                    if isinstance(x, ast.Attribute) and x.attr == H:
+                        pp = par.get(id(x))
+                        if isinstance(x.ctx, ast.Store):
+                            if id(pp) not in store_ids:
+                                ok = False
+                        elif isinstance(x.ctx, ast.Load):
+                            if not (isinstance(pp, ast.Attribute) and pp.value is x and isinstance(pp.ctx, ast.Load) and
+                                    (pp.attr in fields or (pp.attr in meths and isinstance(par.get(id(pp)), ast.Call) and par[id(pp)].func is pp
+                                                           and not par[id(pp)].keywords and len(par[id(pp)].args) == len(meths[pp.attr][1])))):
+                                ok = False
+                        else:
+                            ok = False
+                    elif isinstance(x, ast.Attribute) and x.attr in fields and isinstance(x.ctx, (ast.Store, ast.Del)):
+                        # a store of the same name elsewhere: tolerated only when it is dead (the name is
+                        # never read except through the holder) and pure -- it is dropped below
+                        pp = par.get(id(x))
+                        dead = isinstance(pp, ast.Assign) and len(pp.targets) == 1 and pp.targets[0] is x and not any(isinstance(y, (ast.Call, ast.Yield, ast.Await, ast.NamedExpr)) for y in ast.walk(pp.value))
+                        if dead:
+                            dead_stores.append(pp)
+                        else:
+                            ok = False
+                    elif isinstance(x, ast.Attribute) and x.attr in fields and isinstance(x.ctx, ast.Load) and not (isinstance(x.value, ast.Attribute) and x.value.attr == H) \
+                            and id(x) not in in_cd:
+                        direct_reads.append(x)
+                    elif isinstance(x, ast.Constant) and isinstance(x.value, str) and x.value in [H] + fields and id(x) not in in_cd:
+                        ok = False
+            if not ok:
+                continue
+            if dead_stores and any(r.attr in {d.targets[0].attr for d in dead_stores} for r in direct_reads):
+                continue
+            dead_ids = {id(d) for d in dead_stores}
+            # method arguments: substituted once each, in signature order, or simple
+            def arg_ok(mname, args):
+                first, params, body = meths[mname]
+                order = [x.id for x in ast.walk(body) if isinstance(x, ast.Name) and x.id in params]
+                once = sorted(order) == sorted(params) and len(order) == len(params)
+                return all(simple(a_) for a_ in args) or once
+            bad = False
+            for fi in repo.functions.values():
+                for x in ast.walk(fi.node):
+                    if isinstance(x, ast.Call) and isinstance(x.func, ast.Attribute) and x.func.attr in meths and isinstance(x.func.value, ast.Attribute) and x.func.value.attr == H:
+                        if not arg_ok(x.func.attr, x.args):
+                            bad = True
+            if bad:
+                continue
+
+            class Sub(ast.NodeTransformer):
+                def __init__(self, m):
+                    self.m = m
+
+                def visit_Name(self, n):
+                    if isinstance(n.ctx, ast.Load) and n.id in self.m:
+                        return copy.deepcopy(self.m[n.id])
+                    return n
+
+            class T(ast.NodeTransformer):
+                def visit_Call(self, n):
+                    self.generic_visit(n)
+                    f = n.func
+                    if isinstance(f, ast.Attribute) and f.attr in meths and isinstance(f.value, ast.Attribute) and f.value.attr == H:
+                        first, params, body = meths[f.attr]
+                        holder = f.value.value
+                        b = copy.deepcopy(body)
+
+                        class S2(ast.NodeTransformer):
+                            def visit_Attribute(self, a):
+                                if isinstance(a.value, ast.Name) and a.value.id == first:
+                                    return ast.Attribute(value=copy.deepcopy(holder), attr=a.attr, ctx=ast.Load())
+                                return self.generic_visit(a)
+                        b = S2().visit(b)
+                        b = Sub(dict(zip(params, n.args))).visit(b)
+                        return ast.copy_location(b, n)
+                    return n
+
+                def visit_Attribute(self, n):
+                    self.generic_visit(n)
+                    if isinstance(n.ctx, ast.Load) and n.attr in fields and isinstance(n.value, ast.Attribute) and n.value.attr == H:
+                        return ast.copy_location(ast.Attribute(value=n.value.value, attr=n.attr, ctx=ast.Load()), n)
+                    return n
+
+            def block(stmts):
+                out = []
+                for s_ in stmts:
+                    if id(s_) in dead_ids:
+                        continue
+                    if id(s_) in store_ids:
+                        st, call, ctor = [z for z in stores if z[0] is s_][0]
+                        vals = list(call.args) if ctor is None else [Sub(dict(zip(ctors[ctor][0], call.args))).visit(copy.deepcopy(e)) for e in ctors[ctor][1]]
+                        holder = s_.targets[0].value
+                        for f_, v in zip(fields, vals):
+                            out.append(ast.copy_location(ast.Assign(targets=[ast.Attribute(value=copy.deepcopy(holder), attr=f_, ctx=ast.Store())], value=T().visit(v)), s_))
+                        continue
+                    for fld in ('body', 'orelse', 'finalbody'):
+                        sub = getattr(s_, fld, None)
+                        if isinstance(sub, list) and sub and isinstance(sub[0], ast.stmt):
+                            setattr(s_, fld, block(sub))
+                    if isinstance(s_, ast.Try):
+                        for h in s_.handlers:
+                            h.body = block(h.body)
+                    out.append(s_)
+                return out
+            for fi in repo.functions.values():
+                if isinstance(fi.node, ast.FunctionDef) and fi.cls is not None and fi.cls.node is cd:
+                    continue
+                if isinstance(fi.node, ast.FunctionDef):
+                    fi.node.body = block(fi.node.body)
+                    T().visit(fi.node)
+                    ast.fix_missing_locations(fi.node)
+            count += 1
+    return count
+
+
+def lower_compiled_aliases(repo):
+    """``self.A = self.X.m`` as a statement of C._compile that stands after the statement
+    ``self.X._compile(...)``: a method of the (now compiled) sub-field looked up once.  When A is
+    stored nowhere else, ``.m`` is only ever stored by declaration-phase methods (_compile & co,
+    __init__) and ``self.X`` only by __init__, the cached value is what ``self.X.m`` evaluates to
+    at any later time: every read ``self.A`` in the class is rewritten to ``self.X.m`` and the
+    store is dropped -- the form the code has without the cache"""
+    from .effects import COMPILE_PHASE_NAMES
+    count = 0
+    stores_of = {}
+    for fi in repo.functions.values():
+        last = fi.qual.split('.')[-1]
+        for n in ast.walk(fi.node):
+            if isinstance(n, ast.Attribute) and isinstance(n.ctx, (ast.Store, ast.Del)):
+                stores_of.setdefault(n.attr, []).append((fi, last, n))
+            elif isinstance(n, ast.Call) and isinstance(n.func, ast.Name) and n.func.id in ('setattr', 'delattr') and len(n.args) >= 2 and isinstance(n.args[1], ast.Constant):
+                stores_of.setdefault(n.args[1].value, []).append((fi, last, n))
+    alias_targets = {}
+    for fi in repo.functions.values():
+        if fi.qual.split('.')[-1] == '_compile' and isinstance(fi.node, ast.FunctionDef):
+            for st in fi.node.body:
+                if isinstance(st, ast.Assign) and len(st.targets) == 1 and isinstance(st.targets[0], ast.Attribute) and isinstance(st.value, ast.Attribute) \
+                        and isinstance(st.value.value, ast.Attribute):
+                    alias_targets[id(st.targets[0])] = (st.targets[0].attr, st.value.value.attr, st.value.attr)
+
+    def _is_alias_store(node, A, X, m):
+        return alias_targets.get(id(node)) == (A, X, m)
+    strings = {n.value for info in repo.modules.values() for n in ast.walk(info['tree']) if isinstance(n, ast.Constant) and isinstance(n.value, str)}
+    for ci in list(repo.classes.values()):
+        comp = ci.methods.get('_compile')
+        if comp is None or not isinstance(comp.node, ast.FunctionDef):
+            continue
+        compiled = set()
+        plan = []
+        for st in comp.node.body:
+            if isinstance(st, ast.Expr) and isinstance(st.value, ast.Call) and isinstance(st.value.func, ast.Attribute) and st.value.func.attr == '_compile' \
+                    and isinstance(st.value.func.value, ast.Attribute) and isinstance(st.value.func.value.value, ast.Name) and st.value.func.value.value.id == 'self':
+                compiled.add(st.value.func.value.attr)
+            elif isinstance(st, ast.Assign) and len(st.targets) == 1 and isinstance(st.targets[0], ast.Attribute) and isinstance(st.targets[0].value, ast.Name) \
+                    and st.targets[0].value.id == 'self' and isinstance(st.value, ast.Attribute) and isinstance(st.value.value, ast.Attribute) \
+                    and isinstance(st.value.value.value, ast.Name) and st.value.value.value.id == 'self':
+                A, X, m = st.targets[0].attr, st.value.value.attr, st.value.attr
+                if X not in compiled or A in strings:
+                    continue
+                if any(not _is_alias_store(par_n, A, X, m) for _, _, par_n in stores_of.get(A, [])):
+                    continue
+                if any(not (last in COMPILE_PHASE_NAMES or last in ('__init__', '__new__')) for _, last, _ in stores_of.get(m, [])):
+                    continue
+                if any(last not in ('__init__', '__new__') for _, last, _ in stores_of.get(X, [])):
+                    continue
+                plan.append((st, A, X, m))
+        if not plan:
+            continue
+        amap = {A: (X, m) for _, A, X, m in plan}
+        drop = {id(st) for st, _, _, _ in plan}
+        comp.node.body = [st for st in comp.node.body if id(st) not in drop]
+
+        class T(ast.NodeTransformer):
+            def visit_Attribute(self, n):
+                self.generic_visit(n)
+                if isinstance(n.ctx, ast.Load) and n.attr in amap and isinstance(n.value, ast.Name) and n.value.id == 'self':
+                    X, m = amap[n.attr]
+                    return ast.copy_location(ast.Attribute(value=ast.Attribute(value=ast.Name(id='self', ctx=ast.Load()), attr=X, ctx=ast.Load()), attr=m, ctx=ast.Load()), n)
+                return n
+        for c in set([ci]) | set(repo.subclasses(ci.name)):
+            for fi in c.methods.values():
+                if isinstance(fi.node, ast.FunctionDef):
+                    T().visit(fi.node)
+                    ast.fix_missing_locations(fi.node)
+        count += len(plan)
+    return count
+
+
 def inline_helpers(repo):
+    repo.lowered_compiled_aliases = lower_compiled_aliases(repo)
+    repo.lowered_value_objects = lower_value_objects(repo)
+    repo.lowered_module_records = 0
     repo.lowered_derived_maps = lower_derived_maps(repo)
     repo.lowered_callable_records = lower_callable_records(repo)
     repo.lowered_record_entries = lower_record_entries(repo)
+    repo.lowered_module_records = lower_module_records(repo)
     repo.lowered_suppress = lower_suppress(repo)
     repo.lowered_index_loops = lower_index_loops(repo)
     repo.lowered_combinators = lower_combinators(repo)
